@@ -113,6 +113,71 @@ theorem partition_eq_metricframe (rows : List (List Str)) (w : Nat) (hw : 0 < w)
   · rintro ⟨r, hr, rfl⟩
     exact ⟨⟨r, row_mem_combos rows w r hr (hrect r hr), rfl⟩, (positions_ne_nil r rows).mpr hr⟩
 
+/-! ### the callers of `_merge_columns` (lifted into `Generated/MergeCallers.lean`) -/
+
+/-- a single column is NOT merged and NOT stringified: the cell value itself is the group id, for sensitive and for
+    control features alike … -/
+theorem encode_single (v : Str) : encodeSensitive [v] = .raw v ∧ encodeControl [v] = .raw v := by
+  constructor <;> simp [encodeSensitive, encodeControl, encodeWith, MergeCallers.sfThreshold, MergeCallers.cfThreshold]
+
+/-- … and two or more columns are merged with `_join_names` -/
+theorem encode_multi (r : List Str) (h : 2 ≤ r.length) :
+    encodeSensitive r = .merged (joinNames r) ∧ encodeControl r = .merged (joinNames r) := by
+  have h' : r.length > 1 := h
+  constructor <;> simp [encodeSensitive, encodeControl, encodeWith, MergeCallers.sfThreshold, MergeCallers.cfThreshold, h']
+
+/-- the group id is injective on rows of one table (any width ≥ 1): the single-column passthrough is injective too -/
+theorem encode_injective (r₁ r₂ : List Str) (hlen : r₁.length = r₂.length) (hpos : 0 < r₁.length) :
+    (encodeSensitive r₁ = encodeSensitive r₂ → r₁ = r₂) ∧ (encodeControl r₁ = encodeControl r₂ → r₁ = r₂) := by
+  have key : ∀ t, t = 1 → encodeWith t r₁ = encodeWith t r₂ → r₁ = r₂ := by
+    intro t ht h
+    subst ht
+    unfold encodeWith at h
+    by_cases h1 : r₁.length > 1
+    · have h2 : r₂.length > 1 := hlen ▸ h1
+      simp only [h1, h2, if_true, GroupId.merged.injEq] at h
+      exact join_injective r₁ r₂ (by intro e; simp [e] at hpos) (by intro e; rw [e] at h2; simp at h2) h
+    · have h2 : ¬ r₂.length > 1 := hlen ▸ h1
+      simp only [h1, h2, if_false, GroupId.raw.injEq] at h
+      match r₁, r₂, hlen, hpos, h1 with
+      | [a], [b], _, _, _ => simp at h; rw [h]
+      | [_], [], hl, _, _ => simp at hl
+      | [_], _ :: _ :: _, hl, _, _ => simp at hl
+      | _ :: _ :: _, _, _, _, h1 => simp at h1
+  exact ⟨key MergeCallers.sfThreshold rfl, key MergeCallers.cfThreshold rfl⟩
+
+/-- hence, at any width, two rows are in the same group exactly when they agree in every column -/
+theorem encode_same_group_iff (r₁ r₂ : List Str) (hlen : r₁.length = r₂.length) (hpos : 0 < r₁.length) :
+    encodeSensitive r₁ = encodeSensitive r₂ ↔ r₁ = r₂ :=
+  ⟨(encode_injective r₁ r₂ hlen hpos).1, fun h => by rw [h]⟩
+
+/-- control features are merged separately from the sensitive features, by the same function under the same
+    column-count test -/
+theorem control_uses_same_encoder :
+    MergeCallers.cfMerger = MergeCallers.sfMerger ∧ MergeCallers.sfMerger = "_merge_columns" ∧
+    MergeCallers.cfThreshold = MergeCallers.sfThreshold ∧ (∀ r, encodeControl r = encodeSensitive r) := by
+  refine ⟨by decide, by decide, by decide, fun r => rfl⟩
+
+/-- every fit-time call site (ThresholdOptimizer.fit, the `load_data` of all moments) and the predict-time call site
+    (InterpolatedThresholder._pmf_predict, reached unchanged from ThresholdOptimizer.predict) encode their sensitive
+    features with the same function: the lifted call targets are equal -/
+theorem fit_predict_same_encoder :
+    (∀ a ∈ MergeCallers.callSites, ∀ b ∈ MergeCallers.callSites, a.2.2 = b.2.2) ∧
+    (∃ a ∈ MergeCallers.callSites, a.1 = "ThresholdOptimizer.fit" ∧ a.2.1 = "fit") ∧
+    (∃ b ∈ MergeCallers.callSites, b.1 = "InterpolatedThresholder._pmf_predict" ∧ b.2.1 = "predict") := by
+  refine ⟨by decide, ⟨_, List.mem_cons_self, rfl, rfl⟩, ⟨_, List.mem_cons_of_mem _ List.mem_cons_self, rfl, rfl⟩⟩
+
+/-- so a row presented at predict time selects the rule learned for a fit-time row exactly when the two rows are the
+    same tuple (the encoder is one function of the row, whatever the other rows of either table are) -/
+theorem predict_selects_same_tuple (fitRows : List (List Str)) (q : List Str) (i : Nat) (hi : i < fitRows.length)
+    (hlen : q.length = fitRows[i].length) (hpos : 0 < q.length) :
+    encodeSensitive q = (fitRows.map encodeSensitive)[i]'(by simpa using hi) ↔ q = fitRows[i] := by
+  rw [List.getElem_map]
+  exact encode_same_group_iff q fitRows[i] hlen hpos
+
+example : encodeSensitive [['1']] = .raw ['1'] := by decide +kernel
+example : encodeSensitive [['1'], ['1', '.', '0']] = .merged ['1', ',', '1', '.', '0'] := by decide +kernel
+
 /-! Non-vacuity and regression examples (evaluated by the kernel). -/
 
 /-- adversarial values: separator, escape character, empty string -/
